@@ -178,7 +178,8 @@ func canStartSignedNumberAfter(r rune) bool {
 	switch r {
 	case 0, ' ', '\t', '\n', '\r',
 		'(', '[', '{', ',', ';', ':',
-		'+', '-', '*', '/', '<', '>', '=', '!', '&', '|', '~':
+		'+', '-', '*', '/', '<', '>', '=', '!', '&', '|', '~',
+		'%', '^', '@': // the reader prefixes: quote %, syntax-quote ^, unquote ~ and ~@
 		return true
 	default:
 		return false
